@@ -92,6 +92,15 @@ func loadKV(c *eng.Ctx) *kvAnalysis {
 				viaCallback, owner = s, par
 			}
 		}
+		// ... or remembered in a function variable of the mutator ("how to
+		// revert this change") that is called only on the failed edge of the
+		// save, the literal being the one assigned on the branch that made
+		// the change (selectedUndo)
+		if viaCallback == nil {
+			if s, par := k.selectedUndo(f); s != nil {
+				viaCallback, owner = s, par
+			}
+		}
 		for _, w := range kvWritesIn(f) {
 			w.Rollback = k.rollbackOf(w.In)
 			if viaCallback != nil && w.Rollback == nil {
@@ -312,6 +321,9 @@ func sameMapSrc(a, b ssa.Value) bool {
 
 // compensates reports whether rollback write r undoes forward write w.
 func (k *kvAnalysis) compensates(r, w kvWrite) (bool, string) {
+	if !undoBelongsTo(r, w) {
+		return false, "the undo literal holding " + eng.InstrStr(r.In) + " is not the one selected on the branch of the forward write"
+	}
 	switch w.Kind {
 	case "insert":
 		if r.Kind == "delete" && sameMapSrc(r.Map, w.Map) {
@@ -547,4 +559,103 @@ func (k *kvAnalysis) deferredUndo(f *ssa.Function) (*ssa.Call, *ssa.Function) {
 		}
 	}
 	return sv, par
+}
+
+// selectedUndo: f is a function literal of a mutator P that P stores in a
+// local function variable (one literal per branch, merged in a phi) and calls
+// -- through that variable -- only on the failure edge of its save.  The
+// writes of f are then roll-back writes of P tied to that save.  Which branch
+// a literal belongs to matters: a forward write W of P is undone by f only if
+// taking the phi edge that carries f implies W was executed (the block of W
+// dominates the predecessor of that edge); undoBelongsTo checks it.
+func (k *kvAnalysis) selectedUndo(f *ssa.Function) (*ssa.Call, *ssa.Function) {
+	par := f.Parent()
+	if par == nil || f.Signature.Params().Len() != 0 || f.Signature.Results().Len() != 0 {
+		return nil, nil
+	}
+	mk := eng.MakeClosureOf(f)
+	if mk == nil || mk.Referrers() == nil {
+		return nil, nil
+	}
+	var phi *ssa.Phi
+	for _, r := range *mk.Referrers() {
+		switch x := r.(type) {
+		case *ssa.Phi:
+			if phi != nil {
+				return nil, nil
+			}
+			phi = x
+		case *ssa.DebugRef:
+		default:
+			return nil, nil // the literal goes elsewhere too
+		}
+	}
+	if phi == nil || phi.Referrers() == nil {
+		return nil, nil
+	}
+	var save *ssa.Call
+	n := 0
+	for _, r := range *phi.Referrers() {
+		switch x := r.(type) {
+		case *ssa.DebugRef:
+		case *ssa.Call:
+			if x.Call.Value != ssa.Value(phi) || len(x.Call.Args) != 0 {
+				return nil, nil
+			}
+			s := k.rollbackOf(x)
+			if s == nil || (save != nil && save != s) {
+				return nil, nil
+			}
+			save = s
+			n++
+		default:
+			return nil, nil
+		}
+	}
+	if n == 0 {
+		return nil, nil
+	}
+	return save, par
+}
+
+// undoBelongsTo: the undo write r (in a literal selected through a phi, see
+// selectedUndo) runs exactly when the forward write w was executed: the phi
+// edge carrying r's literal is taken only after w, and no other edge of the
+// phi is.  For undo writes of any other kind the answer is true.
+func undoBelongsTo(r, w kvWrite) bool {
+	lit := r.In.Parent()
+	if lit == nil || lit.Parent() == nil || lit.Parent() != w.In.Parent() {
+		return true
+	}
+	mk := eng.MakeClosureOf(lit)
+	if mk == nil || mk.Referrers() == nil {
+		return true
+	}
+	var phi *ssa.Phi
+	for _, x := range *mk.Referrers() {
+		if ph, ok := x.(*ssa.Phi); ok {
+			phi = ph
+		}
+	}
+	if phi == nil {
+		return true
+	}
+	wb := w.In.Block()
+	for i, e := range phi.Edges {
+		pred := phi.Block().Preds[i]
+		if e == ssa.Value(mk) {
+			if !(wb == pred || wb.Dominates(pred)) {
+				return false
+			}
+			continue
+		}
+		// another literal is selected on this edge: w must not have run
+		if wb == pred || wb.Dominates(pred) {
+			return false
+		}
+		if hit, _ := eng.Search(w.In.Parent(), w.In, nil, nil, func(x ssa.Instruction) bool { return x.Block() == pred }); hit != nil {
+			return false
+		}
+	}
+	return true
 }
